@@ -14,6 +14,11 @@ def decode(string):
   return value
 
 def validate_decoded(obj):
+  if not isinstance(obj, int) and not isinstance(obj, float):
+    raise gfapy.TypeError(
+      "the class {} is incompatible with the datatype\n"
+      .format(obj.__class__.__name__)+
+      "(accepted classes: str, int, float)")
   if isinstance(obj, float) and (obj != obj or obj in [float("inf"),
                                                       -float("inf")]):
     raise gfapy.ValueError(
